@@ -1632,36 +1632,46 @@ class InterpComp:
             raise Unsupported(f'assignment target {type(tgt).__name__}')
 
     def quantified_gen(self, gen, want):
-        """Summarise a single-generator comprehension over a symbolic collection.
+        """Summarise a comprehension over symbolic collection(s) (one generator, or nested generators all of which
+        range over symbolic collections: the bound variables and guards of the generators are accumulated).
         want: 'any' / 'all' -> Bool term; 'elems' -> (vars, guard(with ifs), value) for further use."""
         node, fr = gen.node, gen.frame
-        if len(node.generators) != 1:
-            raise Unsupported('nested generators over symbolic collections')
-        g = node.generators[0]
-        coll = self.ev(g.iter, fr)
-        items = self.iter_const(coll)
-        if items is not None:
-            return ('const', items, g, node, fr)
-        vars_, guard, val = self.generic_iter(coll)
+        if len(node.generators) == 1:
+            g = node.generators[0]
+            coll = self.ev(g.iter, fr)
+            items = self.iter_const(coll)
+            if items is not None:
+                return ('const', items, g, node, fr)
         sub = Frame(fr.fi, fr.module, dict(fr.vars), fr.selfv, fr.defcls)
         saved = self.mode
         if self.mode == EXEC:
             self.mode = GENERIC
         self.run.push()
         try:
-            self.run.assume(guard)
-            self.assume_domain(val)
-            self.bind_target(g.target, val, sub)
-            conds = [guard]
-            for c in g.ifs:
-                ct = self.as_bool(self.truthy(self.ev(c, sub)))
-                conds.append(ct)
-                self.run.assume(ct)
+            all_vars, conds, first_coll = [], [], None
+            for g in node.generators:
+                if g.is_async:
+                    raise Unsupported('async generator')
+                coll = self.ev(g.iter, sub)
+                if len(node.generators) > 1 and self.iter_const(coll) is not None:
+                    raise Unsupported('nested generators mixing constant and symbolic collections')
+                if first_coll is None:
+                    first_coll = coll
+                vars_, guard, val = self.generic_iter(coll)
+                all_vars.extend(vars_)
+                self.run.assume(guard)
+                self.assume_domain(val)
+                self.bind_target(g.target, val, sub)
+                conds.append(guard)
+                for c in g.ifs:
+                    ct = self.as_bool(self.truthy(self.ev(c, sub)))
+                    conds.append(ct)
+                    self.run.assume(ct)
             elt = self.ev(node.elt, sub) if want != 'guard' else None
         finally:
             self.run.pop()
             self.mode = saved
-        return ('sym', vars_, z3.And(conds) if len(conds) > 1 else conds[0], elt, coll)
+        return ('sym', all_vars, z3.And(conds) if len(conds) > 1 else conds[0], elt, first_coll)
 
     def eval_gen_const(self, items, g, node, fr):
         """explicit evaluation of a comprehension over a sequence of known length (exec mode forks as python would)"""
